@@ -279,3 +279,58 @@ def inert_statement(draw, pool, kinds=None):
 
 def file_flags(draw):
     return {"layout": draw(layout_ints), "crlf": draw(st.integers(0, 5)) == 0, "end": draw(st.integers(0, 3)) == 0}
+
+
+# ---------------------------------------------------------------------------------------------
+# acyclic decay-table sets (C09, C10, C15, C08)
+# ---------------------------------------------------------------------------------------------
+
+@st.composite
+def table_set_file(draw, min_particles=3, max_particles=8, max_lines=4, max_daughters=4, with_aliases=True, balanced_only=True):
+    """A file whose Decay blocks form an acyclic set: particles are ranked, a daughter that has a
+    table always comes from a lower rank.  Includes empty blocks, repeated daughters, particles
+    without tables, aliases that decay and aliases that do not."""
+    from .chains import descriptor_safe
+
+    n = draw(st.integers(min_particles, max_particles))
+    pool = draw(name_pool(n + 3, n + 6))
+    if balanced_only:
+        pool = [x for x in pool if descriptor_safe(x)]
+    k = 0
+    while len(pool) < n + 3:
+        pool.append(f"zz{k}")
+        k += 1
+    owners, stable = pool[:n], pool[n:]
+    stmts = []
+    aliases = {}
+    if with_aliases:
+        targets = [t for t in N.evtgen_safe()[:400] if t not in pool]
+        for x in owners + stable:
+            if draw(st.integers(0, 4)) == 0:
+                aliases[x] = draw(st.sampled_from(targets))
+                stmts.append({"k": "alias", "a": x, "p": aliases[x]})
+    for i, m in enumerate(owners):
+        lower = owners[i + 1:]
+        if draw(st.integers(0, 5)) == 0:
+            lines = []
+        else:
+            nl = draw(st.integers(1, max_lines))
+            lines = []
+            for _ in range(nl):
+                nd = draw(st.integers(0, max_daughters))
+                ds = []
+                while len(ds) < nd:
+                    if lower and draw(st.integers(0, 2)) > 0:
+                        d = draw(st.sampled_from(lower))
+                    else:
+                        d = draw(st.sampled_from(stable))
+                    ds.append(d)
+                    if draw(st.integers(0, 3)) == 0 and len(ds) < nd:
+                        ds.append(d)  # repeated daughter
+                params = [{"t": "num", "v": draw(N.num_literal())}] if draw(st.booleans()) else []
+                lines.append({"bf": draw(N.bf_literal()), "d": ds, "photos": draw(st.integers(0, 3)) == 0,
+                              "model": draw(st.sampled_from(N.MODELS[:20])), "alias": False, "params": params})
+        stmts.append({"k": "decay", "m": m, "lines": lines})
+    stmts = list(draw(st.permutations(stmts)))
+    f = {"stmts": stmts, "layout": [], "crlf": False, "end": False}
+    return f
